@@ -67,6 +67,9 @@ type caseJSON struct {
 	Dur   float64 `json:"dur,omitempty"`
 	Procs int     `json:"procs,omitempty"`
 	Race  bool    `json:"race,omitempty"`
+	// cw: script of Writes through the concurrent audit writer; pool: names of the WAFs of a pair
+	Cw   []cwWrite `json:"cw,omitempty"`
+	Pool []string  `json:"pool,omitempty"`
 
 	FindingKey string `json:"finding_key,omitempty"`
 }
@@ -679,6 +682,15 @@ func Run(cfg vh.Config) (*vh.Result, error) {
 		}
 	}
 
+	// 1b. fault injection on the concurrent audit writer (process-wide file size limit: before any
+	// subprocess is started) and the deterministic WAF-pool pass
+	crng := vh.Rng(cfg.Seed, "c06-cw")
+	r.runCwWAF()
+	for i := 0; i < cfg.Pick(6, 40); i++ {
+		r.runCwScript(genCwScript(crng, i), "C06_0", i)
+	}
+	r.runPool()
+
 	// 2. the stress subprocesses start now and run while the sequential correspondence is produced
 	var wg sync.WaitGroup
 	bin, race, note, berr := buildStress()
@@ -759,8 +771,26 @@ func Run(cfg vh.Config) (*vh.Result, error) {
 
 var stressResults []*runner
 
+func genCwScript(rng *rand.Rand, i int) []cwWrite {
+	n := 2 + rng.Intn(5)
+	var out []cwWrite
+	for k := 0; k < n; k++ {
+		out = append(out, cwWrite{Fail: rng.Intn(3) == 0})
+	}
+	if i < 2 { // always: ok, FAIL, ok, ok
+		out = []cwWrite{{Fail: false}, {Fail: true}, {Fail: false}, {Fail: false}}
+	}
+	return out
+}
+
 func (r *runner) replayInProcess(cj caseJSON, shard string) {
 	switch cj.Kind {
+	case "cw":
+		r.runCwScript(cj.Cw, shard, 0)
+	case "cw-waf":
+		r.runCwWAF()
+	case "pool":
+		r.runPool()
 	case "tx":
 		if cj.Tx != nil {
 			r.runTxAlone(*cj.Tx, shard)
